@@ -725,84 +725,254 @@ func short(b []byte) string {
 	return s
 }
 
-// judgeLine computes the spec diff of a single-line block.
-func judgeLine(c *hx.Ctx, ln int, g *genLine, prec string, rows []storedRow, errKind string) {
-	ref, reason, stray := refLineQ(g.text)
-	cls := func(c string) string {
-		if stray {
-			return "stray_quote"
-		}
-		return c
+// ---- the spec diff -------------------------------------------------------------------------
+//
+// For every block two expectations are computed, line by line, from the reference reader:
+//
+//   exact     what the property demands: a block with a line that is invalid (or outside the
+//             supported range) is answered with an error; otherwise every line is stored as the
+//             point it denotes.
+//   adjusted  the exact expectation with the three known defects applied, and nothing else:
+//             an integer beyond 2^53 may come back as int64(float64(n)); a line that fails to
+//             parse and is not the last line processed is dropped without error; a line with a
+//             stray double quote (class predicate of refLineQ) behaves as the same line does
+//             when it is sent alone.
+//
+// The implementation's answer is compared row by row. Equal to exact: no violation. Equal to
+// adjusted: a violation of exactly the known classes that were needed. Anything else: a
+// violation outside every known class, whatever else the block contains.
+
+const (
+	loSkip     = iota
+	loRow      // stored as a row
+	loParseErr // Row.unmarshal fails
+	loPostErr  // parsed, then refused by CheckValid / the timestamp range check
+)
+
+type lineOutcome struct {
+	kind int
+	row  storedRow
+}
+
+func (o lineOutcome) String() string {
+	switch o.kind {
+	case loSkip:
+		return "skip"
+	case loRow:
+		return "row " + o.row.text()
+	case loParseErr:
+		return "parse-error"
 	}
-	if g.intended != nil {
-		// the generator's intention is the oracle; cross-check the reference reader
-		if ref == nil || !pointEq(ref, g.intended) {
-			c.Count("harness:oracle_disagrees_with_generator")
-			c.Sample("oracle disagrees with generator on " + short(g.text) + " reason=" + reason)
-		}
-		ref, reason = g.intended, ""
-	}
+	return "refused-row"
+}
+
+// exactOutcome: the reference reading of one line.
+func exactOutcome(line []byte, prec string) (lineOutcome, *point, string, bool) {
+	p, reason, stray := refLineQ(line)
 	switch {
 	case reason == "skip":
-		if errKind != "" || len(rows) != 0 {
-			c.Violation(ln, "skip_line_not_skipped", "empty/comment line "+short(g.text)+" gave err="+errKind)
+		return lineOutcome{kind: loSkip}, nil, reason, stray
+	case p == nil:
+		return lineOutcome{kind: loParseErr}, nil, reason, stray
+	}
+	want, fits := expected(p, prec)
+	if len(p.name) == 0 || !fits {
+		return lineOutcome{kind: loPostErr}, p, "out_of_range", stray
+	}
+	return lineOutcome{kind: loRow, row: want}, p, "", stray
+}
+
+// aloneOutcome: what the implementation does with the line as a block of its own.
+func aloneOutcome(line []byte, prec string) lineOutcome {
+	_, rows, ek := runImpl(prec, line)
+	switch {
+	case ek == "nomeasurement" || ek == "tsrange":
+		return lineOutcome{kind: loPostErr}
+	case ek != "":
+		return lineOutcome{kind: loParseErr}
+	case len(rows) == 1:
+		return lineOutcome{kind: loRow, row: rows[0]}
+	}
+	return lineOutcome{kind: loSkip}
+}
+
+func sameOutcome(a, b lineOutcome) bool {
+	if a.kind != b.kind {
+		// both are errors of the block when the line stands alone
+		return false
+	}
+	if a.kind != loRow {
+		return true
+	}
+	k, _ := compareRow(&a.row, &b.row)
+	return k == ""
+}
+
+// rowMatches: equal, or equal up to the float64 trip of integers beyond 2^53.
+func rowMatches(want, got *storedRow) (ok bool, usedInt bool, class, desc string) {
+	w := *want
+	w.fields = append([]storedField(nil), want.fields...)
+	if len(w.fields) == len(got.fields) {
+		for i := range w.fields {
+			f, g := w.fields[i].v, got.fields[i].v
+			if f.kind == 'i' && g.kind == 'i' && f.i != g.i && abs53(f.i) && int64(float64(f.i)) == g.i {
+				w.fields[i].v.i = g.i
+				usedInt = true
+			}
 		}
-		c.Count("verdict:skipped")
-	case ref != nil:
-		want, fits := expected(ref, prec)
-		if len(ref.name) == 0 {
-			fits = false
+	}
+	class, desc = compareRow(&w, got)
+	return class == "", usedInt, class, desc
+}
+
+func splitBlock(body []byte) [][]byte {
+	lines := bytes.Split(body, []byte{'\n'})
+	if n := len(lines); n > 0 && len(lines[n-1]) == 0 {
+		lines = lines[:n-1] // the piece after the last newline is processed only when not empty
+	}
+	return lines
+}
+
+// judge computes the spec diff of one block. intended (optional) is the generator's own
+// reading of a one-line block; it must agree with the reference reader.
+func judge(c *hx.Ctx, ln int, prec string, body []byte, rows []storedRow, errKind string, intended *point) {
+	lines := splitBlock(body)
+	exact := make([]lineOutcome, len(lines))
+	adj := make([]lineOutcome, len(lines))
+	strayDefect := false
+	for i, l := range lines {
+		eo, p, _, stray := exactOutcome(l, prec)
+		exact[i], adj[i] = eo, eo
+		if intended != nil && len(lines) == 1 {
+			if p == nil || !pointEq(p, intended) {
+				c.Violation(ln, "harness:oracle_disagrees_with_generator", "reference reader and generator read "+short(l)+" differently")
+				return
+			}
 		}
-		switch {
-		case errKind != "":
-			if fits {
-				c.Count("verdict:valid_rejected:" + errKind)
-				if stray {
-					c.Count("verdict:valid_rejected_with_stray_quote")
-				} else if len(c.Stats.Notes) < 6 {
-					c.Stats.Notes = append(c.Stats.Notes, "valid by the reference grammar, rejected ("+errKind+"): "+short(g.text))
-				}
-				if g.intended != nil {
-					c.Count("verdict:generated_valid_rejected")
-				}
+		if stray {
+			adj[i] = aloneOutcome(l, prec)
+			if !sameOutcome(adj[i], eo) && !(adj[i].kind >= loParseErr && eo.kind >= loParseErr) {
+				strayDefect = true
+			}
+			c.Count("line:stray_quote")
+		}
+	}
+	// exact expectation of the block
+	exactErr := false
+	var exactRows []*storedRow
+	for i := range exact {
+		switch exact[i].kind {
+		case loParseErr, loPostErr:
+			exactErr = true
+		case loRow:
+			exactRows = append(exactRows, &exact[i].row)
+		}
+	}
+	// adjusted expectation of the block
+	adjErr, dropped := false, false
+	var adjRows []*storedRow
+	for i := range adj {
+		switch adj[i].kind {
+		case loParseErr:
+			if i == len(adj)-1 {
+				adjErr = true
 			} else {
-				c.Count("verdict:out_of_range_rejected")
+				dropped = true
 			}
-		case len(rows) != 1:
-			c.Violation(ln, cls("row_count"), fmt.Sprintf("line %s stored %d rows", short(g.text), len(rows)))
-		case !fits:
-			k := "timestamp_precision_overflow"
-			if len(ref.name) == 0 {
-				k = "empty_measurement_accepted"
+		case loPostErr:
+			adjErr = true
+		case loRow:
+			adjRows = append(adjRows, &adj[i].row)
+		}
+	}
+	gotErr := errKind != ""
+
+	// ---- equal to the exact expectation? ---------------------------------------------------
+	if gotErr && exactErr {
+		c.Count("verdict:rejected_as_demanded")
+		return
+	}
+	if !gotErr && !exactErr && len(rows) == len(exactRows) {
+		all := true
+		for i := range rows {
+			if k, _ := compareRow(exactRows[i], &rows[i]); k != "" {
+				all = false
+				break
 			}
-			c.Violation(ln, k, fmt.Sprintf("line %s precision=%q is outside the supported range but was stored as %s", short(g.text), prec, rows[0].text()))
-		default:
-			if k, desc := compareRow(&want, &rows[0]); k != "" {
-				c.Violation(ln, cls(k), desc+"; line "+short(g.text)+" precision="+prec)
+		}
+		if all {
+			if len(lines) == 0 || len(rows) == 0 {
+				c.Count("verdict:nothing_to_store")
 			} else {
 				c.Count("verdict:roundtrip_ok")
 			}
+			return
 		}
-	default: // invalid by the reference grammar
-		if errKind != "" {
-			c.Count("verdict:invalid_rejected:" + errKind)
-		} else {
-			stored := "nothing"
-			if len(rows) > 0 {
-				stored = rows[0].text()
-			}
-			c.Violation(ln, cls("accepted_invalid:"+reason), fmt.Sprintf("invalid line (%s) %s accepted, stored %s", reason, short(g.text), stored))
+	}
+	if gotErr && !exactErr {
+		// every line is valid by the reference grammar and the block is refused with an error:
+		// nothing is stored and the client is told - not a violation of this property
+		c.Count("verdict:valid_block_rejected:" + errKind)
+		if !strayDefect && len(c.Stats.Notes) < 6 {
+			c.Stats.Notes = append(c.Stats.Notes, "valid by the reference grammar, rejected ("+errKind+"): "+short(body))
 		}
+		return
+	}
+
+	// ---- the answer is 'ok' and differs from the exact expectation -----------------------
+	unexplained := func(class, desc string) {
+		c.Violation(ln, "unexplained:"+class, desc+"; block "+short(body)+" precision="+prec+" stored "+rowsText(rows))
+	}
+	if adjErr {
+		unexplained("accepted_block_that_known_defects_do_not_accept", "the block holds a line that must fail it (also with the known defects applied) and was acknowledged")
+		return
+	}
+	if len(rows) != len(adjRows) {
+		unexplained("row_count", fmt.Sprintf("%d rows stored, %d expected with the known defects applied", len(rows), len(adjRows)))
+		return
+	}
+	usedInt := false
+	for i := range rows {
+		ok, ui, class, desc := rowMatches(adjRows[i], &rows[i])
+		if !ok {
+			unexplained(class, fmt.Sprintf("row %d of %d: %s", i+1, len(rows), desc))
+			return
+		}
+		usedInt = usedInt || ui
+	}
+	// fully explained by known defects: name exactly the ones that were needed
+	n := 0
+	if usedInt {
+		n++
+		c.Violation(ln, "int_abs_gt_2p53", "an integer field beyond 2^53 came back as int64(float64(n)); block "+short(body)+" stored "+rowsText(rows))
+	}
+	if strayDefect {
+		n++
+		c.Violation(ln, "stray_quote", "a line with a stray double quote is not read as the reference grammar reads it; block "+short(body)+" stored "+rowsText(rows))
+	}
+	if dropped {
+		n++
+		c.Violation(ln, "invalid_line_not_last", fmt.Sprintf("a line that does not parse and is not the last one was dropped without error; %d rows stored; block %s", len(rows), short(body)))
+	}
+	if n == 0 {
+		unexplained("differs_from_exact_only", "the answer differs from the exact expectation although no known defect applies")
 	}
 }
 
 func Run(c *hx.Ctx) error {
-	c.Stats.Rule = "70% structured valid points (measurement/tags/field keys/strings over plain, special, unicode and non-UTF-8 bytes with random escape spellings; ints incl. 2^53 and int64 extremes; floats in every spelling incl. exponents, long mantissas, overflow/underflow edges, f suffix; all boolean spellings; timestamps x 12 precision labels), 30% malformed (single-byte damage, nasty value/timestamp tokens, structural); every line as a one-line block, plus batches of 2-6 lines mixing valid, invalid, empty, comment and CRLF lines. Non-trivial: the line has an escape, an integer with > 15 digits, an exponent, or is malformed; distinct by op line."
+	c.Stats.Rule = "70% structured valid points (measurement/tags/field keys/strings over plain, special, unicode and non-UTF-8 bytes with random escape spellings; ints incl. 2^53 and int64 extremes; floats in every spelling incl. exponents, long mantissas, overflow/underflow edges, f suffix; all boolean spellings; timestamps x 12 precision labels), 30% malformed (single-byte damage, nasty value/timestamp tokens, structural); every line as a one-line block, plus batches (20% of the cases): half of them 2-6 lines mixing valid, invalid, empty, comment and CRLF lines, half of them 2-4 valid lines with the presence of an escape in each of the last two lines and the final newline chosen explicitly (all 8 combinations); every row of every block is compared with the reference reading. Non-trivial: the line has an escape, an integer with > 15 digits, an exponent, or is malformed; distinct by op line."
 	n := c.Budget(20000, 1500000)
 	r := hx.NewRng(c.Seed)
 	nBatch := n / 5
 	nSingle := n - nBatch
-	var pool []genLine
+	var pool, poolBs, poolNoBs []genLine // everything; valid lines with / without a backslash
+	keep := func(ps *[]genLine, g genLine) {
+		if len(*ps) < 4096 {
+			*ps = append(*ps, g)
+		} else {
+			(*ps)[r.Intn(len(*ps))] = g
+		}
+	}
 
 	emit := func(prec string, body []byte) (int, []storedRow, string) {
 		ans, rows, ek := runImpl(prec, body)
@@ -817,7 +987,7 @@ func Run(c *hx.Ctx) error {
 	for _, s := range regressionLines {
 		g := genLine{text: []byte(s), kind: "regression", nt: true}
 		ln, rows, ek := emit("", g.text)
-		judgeLine(c, ln, &g, "", rows, ek)
+		judge(c, ln, "", g.text, rows, ek, g.intended)
 		c.Case(opLine("", g.text), true)
 		c.Count("kind:regression")
 		pool = append(pool, g)
@@ -825,7 +995,7 @@ func Run(c *hx.Ctx) error {
 	for _, s := range regressionBatches {
 		body := []byte(s)
 		ln, rows, ek := emit("", body)
-		judgeBatch(c, ln, body, rows, ek)
+		judge(c, ln, "", body, rows, ek, nil)
 		c.Case(opLine("", body), true)
 		c.Count("kind:regression-batch")
 	}
@@ -842,7 +1012,7 @@ func Run(c *hx.Ctx) error {
 			prec = ""
 		}
 		ln, rows, ek := emit(prec, g.text)
-		judgeLine(c, ln, &g, prec, rows, ek)
+		judge(c, ln, prec, g.text, rows, ek, g.intended)
 		c.Case(opLine(prec, g.text), g.nt)
 		c.Count("kind:" + g.kind)
 		c.Count("precision:" + prec)
@@ -854,10 +1024,13 @@ func Run(c *hx.Ctx) error {
 		if g.nt && g.intended != nil && ek == "" {
 			c.Sample(short(g.text) + " => " + rowsText(rows))
 		}
-		if len(pool) < 4096 {
-			pool = append(pool, g)
-		} else {
-			pool[r.Intn(len(pool))] = g
+		keep(&pool, g)
+		if g.intended != nil {
+			if bytes.IndexByte(g.text, '\\') >= 0 {
+				keep(&poolBs, g)
+			} else {
+				keep(&poolNoBs, g)
+			}
 		}
 	}
 
@@ -865,35 +1038,72 @@ func Run(c *hx.Ctx) error {
 	for _, g := range longTokenLines() {
 		g := g
 		ln, rows, ek := emit("", g.text)
-		judgeLine(c, ln, &g, "", rows, ek)
+		judge(c, ln, "", g.text, rows, ek, g.intended)
 		c.Case(opLine("", g.text), true)
 		c.Count("kind:long-token")
 	}
 
+	// batches. Two kinds: (a) 2-6 lines drawn from everything generated so far (valid,
+	// malformed, empty, comment, CRLF); (b) 2-4 valid lines where the presence of a backslash
+	// in each of the last two lines and the final newline are chosen explicitly, so that every
+	// combination (escape in the last line only, in the line before only, in both, in neither)
+	// x (newline-terminated or not) is hit with the same probability.
+	pick := func(ps []genLine) []byte { return ps[r.Intn(len(ps))].text }
 	for i := 0; i < nBatch; i++ {
-		k := 2 + r.Intn(5)
 		var body []byte
-		for j := 0; j < k; j++ {
-			switch r.Intn(12) {
-			case 0:
-				// empty line
-			case 1:
-				body = append(body, "# comment"...)
-			default:
-				body = append(body, pool[r.Intn(len(pool))].text...)
-			}
-			if j < k-1 || r.Bool() {
-				if r.Chance(10) {
-					body = append(body, '\r')
+		kind := "batch:mixed"
+		finalNL := r.Bool()
+		if r.Chance(50) && len(poolBs) > 0 && len(poolNoBs) > 0 {
+			k := 2 + r.Intn(3)
+			bsPrev, bsLast := r.Bool(), r.Bool()
+			for j := 0; j < k; j++ {
+				withBs := r.Bool()
+				if j == k-2 {
+					withBs = bsPrev
 				}
-				body = append(body, '\n')
+				if j == k-1 {
+					withBs = bsLast
+				}
+				var l []byte
+				if withBs {
+					l = pick(poolBs)
+				} else {
+					l = pick(poolNoBs)
+				}
+				l = bytes.TrimSuffix(l, []byte{'\r'})
+				body = append(body, l...)
+				if j < k-1 || finalNL {
+					body = append(body, '\n')
+				}
+			}
+			kind = fmt.Sprintf("batch:valid:escPrev=%v,escLast=%v,finalNL=%v", bsPrev, bsLast, finalNL)
+		} else {
+			k := 2 + r.Intn(5)
+			for j := 0; j < k; j++ {
+				switch r.Intn(12) {
+				case 0:
+					// empty line
+				case 1:
+					body = append(body, "# comment"...)
+				default:
+					body = append(body, pick(pool)...)
+				}
+				if j < k-1 || finalNL {
+					if r.Chance(10) {
+						body = append(body, '\r')
+					}
+					body = append(body, '\n')
+				}
 			}
 		}
 		prec := precisions[r.Intn(len(precisions))]
+		if r.Chance(50) {
+			prec = ""
+		}
 		ln, rows, ek := emit(prec, body)
-		judgeBatch(c, ln, body, rows, ek)
+		judge(c, ln, prec, body, rows, ek, nil)
 		c.Case(opLine(prec, body), true)
-		c.Count("kind:batch")
+		c.Count("kind:" + kind)
 		if ek != "" {
 			c.Count("answer:batch-err")
 		} else {
@@ -911,67 +1121,6 @@ func rowsText(rows []storedRow) string {
 	return strings.Join(parts, " | ")
 }
 
-// judgeBatch: a block that is answered without error must not contain a line the reference
-// grammar rejects (that line was then either stored as something or dropped silently).
-func judgeBatch(c *hx.Ctx, ln int, body []byte, rows []storedRow, errKind string) {
-	if errKind != "" {
-		return
-	}
-	lines := bytes.Split(body, []byte{'\n'})
-	valid := 0
-	for i, l := range lines {
-		if i == len(lines)-1 && len(l) == 0 {
-			break
-		}
-		p, reason, stray := refLineQ(l)
-		if reason == "skip" {
-			continue
-		}
-		if p != nil && len(p.name) > 0 {
-			valid++
-			continue
-		}
-		if reason == "" {
-			reason = "no_measurement"
-		}
-		// was this line, alone, accepted?
-		_, _, ek := runImpl("", l)
-		if ek == "" {
-			k := "accepted_invalid:" + reason
-			if stray {
-				k = "stray_quote"
-			}
-			c.Violation(ln, k, fmt.Sprintf("invalid line (%s) %s accepted inside a batch", reason, short(l)))
-		} else {
-			c.Violation(ln, "invalid_line_not_last", fmt.Sprintf("line %d of %d (%s: %s) is invalid, the request is answered without error and the line is dropped silently; %d rows stored", i+1, len(lines), reason, short(l), len(rows)))
-		}
-		return
-	}
-	if valid != len(rows) {
-		// every line is valid by the reference grammar, the block is acknowledged, yet rows are
-		// missing: a line the parser rejects was dropped silently
-		c.Count("verdict:batch_rowcount_differs_from_reference")
-		for i, l := range lines {
-			if i == len(lines)-1 && len(l) == 0 {
-				break
-			}
-			p, reason, stray := refLineQ(l)
-			if p == nil || reason != "" {
-				continue
-			}
-			if _, _, ek := runImpl("", l); ek != "" {
-				k := "valid_line_dropped_silently"
-				if stray {
-					k = "stray_quote"
-				}
-				c.Violation(ln, k, fmt.Sprintf("line %d of %d (%s) is valid, is rejected (%s) by the parser, and the request is acknowledged: dropped silently; %d rows stored", i+1, len(lines), short(l), ek, len(rows)))
-				return
-			}
-		}
-		c.Violation(ln, "batch_row_count", fmt.Sprintf("%d valid lines, %d rows stored: %s", valid, len(rows), short(body)))
-	}
-}
-
 var regressionLines = []string{
 	"m v=abcf", "m v=inf", "m v=1.2.3f", "m v=nanf", "m v=1e400f", "m v=-inff", "m v=0x10f",
 	"m v=+5", "m v=+.5", "m v=+5e2f",
@@ -983,6 +1132,7 @@ var regressionLines = []string{
 
 var regressionBatches = []string{
 	"m v=1\nbad\nm v=2", "m v=1\nbad\n", "bad\n\n", "bad\n#c\n", "m v=1\nbad", "bad\r\n", "m v=1\n\nm v=2\n", "m v=\"a\nb w=1\n#\"",
+	"cpu,host=a value=1 1000\ncpu,host=b\\=c value=2 2000", "cpu,host=a value=1 1000\ncpu,host=b\\,c value=2 2000", "m\\ x v=1\nm v=2", "m v=1\nm\\ x v=2\n",
 }
 
 func longTokenLines() []genLine {
